@@ -96,7 +96,8 @@ def run(tier, seed):
             for removal in (True, False):
                 conf = U.conf_make(cls, removal, fl, p['w'])
                 seen = set()
-                plans = [('U1', U.alphabet_U1(conf), p['u1_depth'], ()),
+                plans = [('U0', U.alphabet_U0(conf), 8, ()),
+                         ('U1', U.alphabet_U1(conf), p['u1_depth'], ()),
                          ('U2', U.alphabet_U2(conf), p['u2_depth'], ()),
                          ('TWO', U.alphabet_two_pairs(conf), p['two_depth'], ()),
                          ('U3', U.alphabet_U2(conf), p['u3_depth'], U.seeds_U3(conf))]
@@ -106,7 +107,7 @@ def run(tier, seed):
                     r = engine.bfs(spec, conf, alpha, depth, seeds=seeds, seen=seen)
                     rep.cov['per_universe'].append({'universe': name, 'conf': U.conf_name(conf), 'alphabet': len(alpha),
                                                     'depth': depth, 'states': r.states, 'transitions': r.transitions,
-                                                    'outcomes': dict(r.outcomes)})
+                                                    'outcomes': dict(r.outcomes), 'state_space_closed': r.closed})
                     rep.cov['states'] += r.states
                     rep.cov['transitions'] += r.transitions
                     for k, v in r.counters.items():
